@@ -1717,6 +1717,44 @@ def run(tier: str, replay: str | None = None):
     except Exception as ex:
         rep.violation({"kind": "broken-correspondence", "correspondence": "Model.instr_narrow vs InPredicate on a str container", "detail": repr(ex)[-1500:]}, no_failing_input=True)
 
+    # 3d'. `len(x) in C` / `len(x) not in C`: Model.lenin_narrow vs _constraint_from_predicate_provider (In / NotIn) and annotate_code
+    lenin_mismatch = []
+    lenin_cases = []
+    if not replay:
+        lv = [(("tuple", t), ()) for t in TUPLES] + [(("known", ("str", t)), ()) for t in ("", "a", "ab")] + [(("typed", "str"), ()), (("any",), ()), (("known", ("tuple", (("int", 1), ("str", "a")))), ()),
+                                                                                                            (("typed", "tuple"), (("min", 1), ("max", 3)))]
+        lunions = [((("tuple", ((False, "int"),)), ()), (("tuple", ((False, "int"), (False, "int"))), ()), (("tuple", ((False, "int"), (False, "str"), (False, "none"))), ())),
+                   ((("known", ("str", "")), ()), (("known", ("str", "a")), ()), (("known", ("str", "ab")), ())), ((("tuple", ((True, "int"),)), ()), (("tuple", ()), ()))]
+        lenin_cases = [(v, ns, notin) for ns in ((1, 2), (0,), (), (2, 3)) for notin in (False, True) for v in [(sv,) for sv in lv] + lunions]
+    try:
+        if lenin_cases:
+            from pyanalyze.implementation import len_of_value as _lov, len_transformer as _ltr
+            from pyanalyze.name_check_visitor import NameCheckVisitor
+            from pyanalyze.stacked_scopes import PredicateProvider as _PP, VarnameWithOrigin as _VO2, constrain_value as _cv2
+
+            def _lt(v, ns, notin, pol):
+                return f"lenin_narrow {value_coq(v)} {lib.clist([lib.cz(n) for n in ns])} {lib.cbool(pol != notin)}"
+
+            mres2 = norm(lib.coq_eval(COQ_HEADER, [f"[{_lt(v, ns, notin, True)}; {_lt(v, ns, notin, False)}]" for v, ns, notin in lenin_cases], name="c02l", shard=200, jobs=2))
+            srcs_l = {}
+            for k, (v, ns, notin) in enumerate(lenin_cases):
+                if value_src(v) is not None and well_typed(v, ("len", "==", 1)):
+                    test = f"len(x) {'not in' if notin else 'in'} ({''.join(str(n) + ', ' for n in ns)})"
+                    srcs_l[k] = f"def f_{k}(x: {value_src(v)}):\n    if {test}:\n        M1 = x\n    else:\n        M2 = x\n"
+            e2e_l = impl_e2e(srcs_l)
+            for k, (v, ns, notin) in enumerate(lenin_cases):
+                con = NameCheckVisitor._constraint_from_predicate_provider(None, _PP(_VO2("x"), _lov, _ltr), tuple(ns), (ast.NotIn if notin else ast.In)())
+                want = [model_value(mres2[k][0]), model_value(mres2[k][1])]
+                routes = {"api": [decode_value(_cv2(value_value(v), a)) for a in (con, con.invert())]}
+                if k in e2e_l:
+                    routes["e2e"] = e2e_l[k]
+                for rname, outs in routes.items():
+                    for pol, out, m in zip((True, False), outs, want):
+                        if isinstance(out, frozenset) and out != m:
+                            lenin_mismatch.append((k, rname, pol, sorted(map(str, out)), sorted(map(str, m))))
+    except Exception as ex:
+        rep.violation({"kind": "broken-correspondence", "correspondence": "Model.lenin_narrow vs _constraint_from_predicate_provider (in / not in)", "detail": repr(ex)[-1500:]}, no_failing_input=True)
+
     # 3e. executed programs (harness/c02_programs.py): containers with a non-elementwise __contains__, helper leaks,
     #     `case ... as p`, protocol truthiness; membership decided on the raw Value
     import c02_programs as _P
@@ -1738,6 +1776,10 @@ def run(tier: str, replay: str | None = None):
         rep.violation({"kind": "failing-input", "route": "e2e-executed-program:" + progs[k]["kind"], "input": progs[k]["input"], "call": f"f_{k}{args}", "branch_slot": slot,
                        "object_bound_at_the_recording_point": bound, "observed": inferred, "source": _P.render(progs[k], k, False),
                        "expected": "the object bound where the branch is taken belongs to the value inferred there"})
+    if lenin_mismatch and not prog_failures:
+        k, rname, pol, out, m = lenin_mismatch[0]
+        rep.violation({"kind": "broken-correspondence", "correspondence": f"Model.lenin_narrow vs {rname} [{pol}]", "input": {"value": lenin_cases[k][0], "container": lenin_cases[k][1], "not_in": lenin_cases[k][2]},
+                       "observed": out, "model": m, "mismatches": len(lenin_mismatch)}, no_failing_input=True)
     if instr_mismatch and not prog_failures:
         k, rname, pol, out, m = instr_mismatch[0]
         rep.violation({"kind": "broken-correspondence", "correspondence": f"Model.instr_narrow vs {rname} [{pol}]", "input": {"value": instr_cases[k][0], "container": instr_cases[k][1]},
@@ -1969,6 +2011,8 @@ def run(tier: str, replay: str | None = None):
         exhaustive=(tier == "thorough" and not replay),
         executed_programs=len(progs),
         executed_program_failures=len(prog_failures),
+        len_in_correspondence_cases=len(lenin_cases),
+        len_in_correspondence_mismatches=len(lenin_mismatch),
         str_container_correspondence_cases=len(instr_cases),
         str_container_correspondence_mismatches=len(instr_mismatch),
         stored_condition_programs=len(stored),
